@@ -130,14 +130,27 @@ def dispatch(repo, res):
     res.oblige('SIB', 'bottleneck and numpy dispatch tables have the same keys', ok, nontrivial=True, sample={'keys': bn})
     if not ok:
         res.add(Finding('SIB', 'photutils.utils._stats', 'dispatch tables', m.relpath, f'bn_funcs keys {bn} != np_funcs keys {npf}', {}))
-    tests = [n for n in ast.walk(tree) if isinstance(n, ast.If) and 'dtype' in unparse(n.test, 0) and 'args[0]' in unparse(n.test, 0)]
-    ok = len(tests) == 1 and nf(tests[0].test) == nf_text("args[0].dtype.str[1:] == 'f8'")
-    res.oblige('SPEC', 'only float64 arrays are dispatched to bottleneck (float32 accumulates inaccurately there)', ok, nontrivial=True,
-               sample={'test': unparse(tests[0].test) if tests else None})
+    # the dispatcher, by path summary: bottleneck for 8-byte floats only (it accumulates float32 in single precision)
+    from .. import pathsum as PS
+    wr = [n for n in ast.walk(tree) if isinstance(n, ast.FunctionDef) and n.name == 'wrapped']
+    if len(wr) != 1:
+        raise AnalysisError('vanished anchor: photutils.utils._stats._dtype_dispatch.wrapped')
+    ref = PS.parse_ref('''
+def wrapped(*args, **kwargs):
+    if args[0].dtype.str[1:] == 'f8':
+        return bn_funcs[func_name](*args, **kwargs)
+    return np_funcs[func_name](*args, **kwargs)
+''')
+    try:
+        diff = PS.compare(wr[0], ref)
+    except PS.TooComplex as exc:
+        raise AnalysisError(f'_dtype_dispatch.wrapped: path summary not computable ({exc})')
+    ok = diff is None
+    res.oblige('SPEC', 'only float64 arrays are dispatched to bottleneck (float32 accumulates inaccurately there)', ok, nontrivial=True)
     if not ok:
         res.add(Finding('SPEC', 'photutils.utils._stats._dtype_dispatch', 'dispatch condition', m.relpath,
                         "the bottleneck dispatch must be restricted to 8-byte floats (`dtype.str[1:] == 'f8'`): bottleneck accumulates "
-                        'float32 in single precision, so a constant float32 image would no longer give RMS 0', {}))
+                        f'float32 in single precision, so a constant float32 image would no longer give RMS 0 ({diff})', {}))
     # every public nan-function is bound in both branches
     names = ['nansum', 'nanmin', 'nanmax', 'nanmean', 'nanmedian', 'nanstd', 'nanvar']
     for nm in names:
